@@ -28,7 +28,7 @@ LAYERS = {
         'crash_props': ['C18'],
     },
     'l4': {
-        'n': {'quick': 3000, 'thorough': 40000},
+        'n': {'quick': 10000, 'thorough': 60000},
         'shards': {'quick': 1, 'thorough': 8},
         'crash_props': ['C18'],
     },
